@@ -1,7 +1,9 @@
 import CM.Ops.Core
 import CM.Model.Format
+import CM.Model.FormatDoc
+import CM.Ops.Render
 namespace CM.Ops
-open CM CM.Model
+open CM CM.Model CM.Model.Fmt
 
 def parseFwOps (s : String) : Option (List FwOp) :=
   if s == "-" then some [] else
@@ -24,6 +26,30 @@ def fwOp : Op
       s!"{showBool fw.err} {showBool fw.hasWritten} {showBool fw.startedLine} {log}"
   | _ => bad
 
-def formatOps : List (String × Op) := [("fw", fwOp)]
+/-- `src;tree ~ src;tree …` ("-" = no blocks). -/
+def parseRoots (s : String) : Option Roots :=
+  if s == "-" then some [] else
+  (s.splitOn " ~ ").mapM fun p =>
+    match p.splitOn ";" with
+    | [src, tree] => do
+      let src ← Bytes.ofHex src
+      let t ← Wire.treeOfString tree
+      pure (src, t)
+    | _ => none
+
+/-- `format <failAt|-> <src;tree ~ src;tree …> <ext>` → `<err> <panic> <number of writes> <write;write;…>` -/
+def formatOp : Op
+  | [failAt, roots, ext] =>
+    match parseRoots roots, parsePairs ext with
+    | some rs, some e =>
+      let fa := if failAt == "-" then none else failAt.toNat?
+      let st := format { unescape := fun s => (e.lookup s).getD s } fa rs
+      let log := if st.fw.w.log.isEmpty then "-" else ";".intercalate (st.fw.w.log.map Bytes.toHex)
+      -- a panicking `Format` returns nothing: the error flag is not observable
+      s!"{if st.panic.isSome then "?" else showBool st.fw.err} {showBool st.panic.isSome} {st.fw.w.log.length} {log}"
+    | _, _ => bad
+  | _ => bad
+
+def formatOps : List (String × Op) := [("fw", fwOp), ("format", formatOp)]
 
 end CM.Ops
